@@ -79,11 +79,28 @@ class Gamma:
         # attribute order of If nodes alternates between cases (both orders are legal)
         self.flip = zlib.crc32(json.dumps(case["items"], sort_keys=True).encode()) & 1
 
-    def vi(self, vid, name=None, anyrank=False):
+    def vi(self, vid, name=None, declared=False):
+        """value_info of a value; declared=True: with the declared type of the case (X and the graph outputs)"""
         _, _, h = _onnx()
         t = self.ty[vid]
-        shape = None if anyrank else ([] if t != "v" else [None])
+        shape = [] if t != "v" else [None]
+        if declared:
+            shape = self.declared_shape()
         return h.make_tensor_value_info(name or self.name[vid], _dt(t), shape)
+
+    def declared_shape(self):
+        x = self.case["xty"]
+        if x["form"] == "scalar":
+            return []
+        if x["form"] == "anyrank":
+            return None
+        return [d["v"] if d["k"] == "val" else ("N" if d["k"] == "sym" else None) for d in x["dims"]]
+
+    def runtime_shape(self):
+        x = self.case["xty"]
+        if x["form"] != "dims":
+            return ()
+        return tuple(d["v"] if d["k"] == "val" else (3 if d["k"] == "sym" else 2) for d in x["dims"])
 
     def tensor(self, tok, name="value"):
         _, _, h = _onnx()
@@ -136,7 +153,7 @@ class Gamma:
 
     def feeds_list(self):
         return [
-            {"X": np.array(x, dtype=np.float32), "N": np.array(n, dtype=np.int64), "B": np.array(b, dtype=np.bool_)}
+            {"X": np.full(self.runtime_shape(), x, dtype=np.float32), "N": np.array(n, dtype=np.int64), "B": np.array(b, dtype=np.bool_)}
             for x, n, b in ((-2, 0, False), (1, 2, True), (3, 3, True))      # Export.tla!TV
         ]
 
@@ -144,13 +161,12 @@ class Gamma:
         """-> (original model to run, object to export, initializer arrays that skip_initializers skips)"""
         onnx, TP, h = _onnx()
         c = self.case
-        anyrank = c["xty"] == "anyrank"
         if c["kind"] == "model":
             inits = [self.tensor(i["tok"], self.name[i["id"]]) for i in c["inits"]]
             g = h.make_graph(
                 self.nodes(), GNAME,
-                [self.vi("X", anyrank=anyrank), self.vi("N"), self.vi("B")],
-                [self.vi(o, anyrank=anyrank) for o in c["outs"]], initializer=inits,
+                [self.vi("X", declared=True), self.vi("N"), self.vi("B")],
+                [self.vi(o, declared=True) for o in c["outs"]], initializer=inits,
             )
             m = h.make_model(g, opset_imports=[h.make_opsetid("", 18)])
             m.ir_version = 8
@@ -235,6 +251,37 @@ def enc(a):
     if v != int(v):
         return {"k": "frac", "v": v}
     return {"k": "n", "v": int(v)}
+
+
+def agrees(a, v):
+    """every element of the array is the spec value v (an empty array agrees with everything)"""
+    a = np.asarray(a)
+    return all(enc(x) == v for x in a.reshape(-1))
+
+
+def xty_text(x):
+    if x["form"] != "dims":
+        return x["form"]
+    return "[" + ",".join(str(d["v"]) if d["k"] == "val" else ("'N'" if d["k"] == "sym" else "None") for d in x["dims"]) + "]"
+
+
+def value_info_diff(m2, orig):
+    """a value_info of the round-tripped model whose (cleaned) name is a value_info of the original must carry the
+    same type and shape (value_infos are only exported together with skipped initializers)"""
+    from onnxscript.backend import onnx_export
+
+    def one(vi):
+        t = vi.type.tensor_type
+        shape = None
+        if t.HasField("shape"):
+            shape = tuple(d.dim_value if d.HasField("dim_value") else (d.dim_param if d.HasField("dim_param") else None) for d in t.shape.dim)
+        return (t.elem_type, shape)
+
+    want = {onnx_export._cleanup_variable_name(v.name): one(v) for v in orig.graph.value_info}
+    for v in m2.graph.value_info:
+        if v.name in want and v.type.HasField("tensor_type") and one(v) != want[v.name]:
+            return f"value_info {v.name}: {one(v)} instead of {want[v.name]}"
+    return None
 
 
 def sig_of(model, function_kind=False):
@@ -349,6 +396,9 @@ def round_trip(obj, orig_model, feeds_list, opts, *, function=None, big=(), main
         _ORIG_CACHE[key] = r1
     if sig_of(m2) != sig_of(orig_model):
         return {**out, "cls": "diff", "stage": "signature", "msg": f"graph inputs/outputs {sig_of(m2)} instead of {sig_of(orig_model)}"}
+    vd = value_info_diff(m2, orig_model)
+    if vd:
+        return {**out, "cls": "diff", "stage": "signature", "msg": vd}
     if not same_outputs(r1, r2):
         # a difference must be reproducible: run the round-tripped model once more in a fresh session
         try:
@@ -397,9 +447,11 @@ def replay_case(case, keep_text=False):
                 _ORIG_CACHE[key] = r1
         except Exception as e:  # noqa: BLE001
             return {"discard": f"ORT refuses the original: {type(e).__name__}: {str(e)[:200]}"}
-        res["spec_eval"] = [[enc(x) for x in r] for r in r1] == case["expected"]
+        res["spec_eval"] = all(
+            len(r) == len(e) and all(agrees(x, v) for x, v in zip(r, e)) for r, e in zip(r1, case["expected"])
+        ) and len(r1) == len(case["expected"])
         if not res["spec_eval"]:
-            res["eval_msg"] = f"ORT(original) = {[[enc(x) for x in r] for r in r1]}, Eval = {case['expected']}"
+            res["eval_msg"] = f"ORT(original) = {[[np.asarray(x).tolist() for x in r] for r in r1]}, Eval = {case['expected']}"
         rt = round_trip(obj, orig, feeds, case_opts(case), big=big,
                         main_name=GNAME if case["kind"] == "model" else FNAME,
                         wrap=gm.wrap if case["kind"] == "function" else None, keep_text=keep_text)
@@ -475,7 +527,7 @@ def short(c):
     special = {e[0]: "".join(e[1]) for e in c["names"] if "".join(e[1]) not in (e[0], "t" + e[0][1:])}
     opts = "+".join(k for k, v in case_opts(c).items() if v) or "default"
     return {"kind": c["kind"], "graph": [nd(n) for n in c["items"]] + [f"init:{i['tok']}" for i in c["inits"]],
-            "names": special, "options": opts, "xty": c["xty"]}
+            "names": special, "options": opts, "xty": xty_text(c["xty"])}
 
 
 def coarse(cls):
@@ -511,7 +563,8 @@ def run_tlc_family(ctx):
         # stratified sample: the same share for every blamed deviation (all of its cases if there are few)
         groups: dict = {}
         for c in cases:
-            key = (blame(c, c["impl"]) if c["impl"] != "ok" else "ok", c["special"], c["kind"])
+            key = (blame(c, c["impl"]) if c["impl"] != "ok" else "ok", c["special"], c["kind"], c["xty"]["form"],
+                   any("".join(e[1]) == "k.0" for e in c["names"]))
             groups.setdefault(key, []).append(c)
         for k in sorted(groups, key=str):
             rng.shuffle(groups[k])
@@ -923,9 +976,19 @@ def extra_models():
     # declared types: every tensor element type with the shape forms
     for et in (TP.FLOAT, TP.DOUBLE, TP.FLOAT16, TP.BFLOAT16, TP.INT8, TP.INT16, TP.INT32, TP.INT64, TP.UINT8, TP.UINT16,
                TP.UINT32, TP.UINT64, TP.BOOL, TP.STRING, TP.COMPLEX64, TP.COMPLEX128, TP.FLOAT8E4M3FN, TP.FLOAT8E5M2, TP.UINT4, TP.INT4):
-        for shape in (None, [], [3], ["N"], [None, 2], ["batch", 3, None]):
+        for shape in (None, [], [3], ["N"], [None, 2], ["batch", 3, None], [0], [0, 3], [1, 0, "N"]):
             m = mk([h.make_node("Identity", ["P"], ["R"])], [h.make_tensor_value_info("P", et, shape)], [h.make_tensor_value_info("R", et, shape)])
             out.append((f"type:{TP.DataType.Name(et)}{shape}", True, m, None))
+    # value_infos (exported together with skipped initializers), with a static dimension 0
+    W = h.make_tensor("W", F, [6], [1, 2, 3, 4, 5, 6.0])
+    m = mk([h.make_node("Mul", ["P", "W"], ["t.0"]), h.make_node("Neg", ["t.0"], ["R"])],
+           [h.make_tensor_value_info("P", F, [0, 6])], [h.make_tensor_value_info("R", F, [0, 6])], inits=[W])
+    m.graph.value_info.extend([h.make_tensor_value_info("t.0", F, [0, 6])])
+    out.append(("valueinfo0", True, m, [{"P": np.zeros((0, 6), dtype=np.float32)}]))
+    m = mk([h.make_node("Mul", ["P", "W"], ["t"]), h.make_node("Neg", ["t"], ["R"])],
+           [h.make_tensor_value_info("P", F, ["N", 6])], [h.make_tensor_value_info("R", F, ["N", None])], inits=[W])
+    m.graph.value_info.extend([h.make_tensor_value_info("t", F, ["N", 6])])
+    out.append(("valueinfoN", True, m, [{"P": np.ones((2, 6), dtype=np.float32)}]))
     # outside the supported class: must raise, or still be faithful
     body = h.make_graph(
         [h.make_node("Add", ["s", "P"], ["so"]), h.make_node("Less", ["so", "T"], ["co"]), h.make_node("Neg", ["so"], ["sc"])], "b",
